@@ -120,8 +120,11 @@ impl RefClient {
         cmd.env_clear().env("LD_PRELOAD", shim);
         if world_b {
             cmd.env("VSIM_SEED", (seed ^ 0xB0B0_B0B0).to_string())
-                .env("LANG", "tr_TR.UTF-8")
-                .env("LC_ALL", "tr_TR.UTF-8")
+                // (another language and script than world A's unset locale; which one varies
+                // with the seed, i.e. from worker to worker)
+                .env("LANG", ["tr_TR.UTF-8", "zh_CN.UTF-8", "ja_JP.UTF-8", "ko_KR.UTF-8"][(seed % 4) as usize])
+                .env("LC_ALL", ["tr_TR.UTF-8", "zh_CN.UTF-8", "ja_JP.UTF-8", "ko_KR.UTF-8"][(seed % 4) as usize])
+                .env("LC_CTYPE", ["tr_TR.UTF-8", "zh_CN.UTF-8", "ja_JP.UTF-8", "ko_KR.UTF-8"][(seed % 4) as usize])
                 .env("TZ", "Pacific/Chatham")
                 .env("HOME", "/nonexistent")
                 .env("COLUMNS", "13")
